@@ -14,7 +14,8 @@ from . import c01
 PROP = "C02"
 THEOREMS = ["C02_block_string", "C02_escapes", "C02_block_body", "C02_numbers_verbatim", "C02_shape_value",
             "C02_shape_type", "C02_shape_document", "C02_shape_document_full",
-            "C02_reparse_value", "C02_reparse_type", "C02_reparse_exec_definition", "C02_segment_span_ok",
+            "C02_reparse_value", "C02_reparse_type", "C02_reparse_exec_definition", "C02_reparse_definition",
+            "C02_reparse_span_definitions", "C02_segment_span_ok",
             "C02_spans_full_proved", "C02_spans_full_value_type", "C02_no_location", "C02_spans_partial"]
 AXIOMS_OK = []
 RUN_MODULE = "Run.C02run Lang.Parser"
